@@ -515,6 +515,9 @@ class LoopMixin:
         if len(n.generators) != 1 or n.generators[0].is_async:
             raise Unsupported("nested comprehension")
         g = n.generators[0]
+        single = self._single_bytes_idiom(n, g, st) if kind in ("list", "gen") else None
+        if single is not None:
+            return single
         it = self.ev(g.iter, st)
         if isinstance(it, tuple) and len(it) == 2 and it[0] == "symdict_items":
             return self.rekey_symdict(n, g, it[1], st, kind)
@@ -548,6 +551,30 @@ class LoopMixin:
         if kind == "list":
             return self.materialize(gv, st)
         return gv
+
+    def _single_bytes_idiom(self, n, g, st):
+        """X[i : i + 1] for i in range(len(X)) over a symbolic bytes value X: the list of X's one-byte slices, in order (their
+        concatenation is X) - the library's way of turning a read into buffered single bytes"""
+        if g.ifs or not isinstance(g.target, ast.Name):
+            return None
+        i = g.target.id
+        it, e = g.iter, n.elt
+        ok = (isinstance(it, ast.Call) and isinstance(it.func, ast.Name) and it.func.id == "range" and len(it.args) == 1 and not it.keywords
+              and isinstance(it.args[0], ast.Call) and isinstance(it.args[0].func, ast.Name) and it.args[0].func.id == "len"
+              and len(it.args[0].args) == 1 and isinstance(it.args[0].args[0], ast.Name)
+              and isinstance(e, ast.Subscript) and isinstance(e.value, ast.Name) and e.value.id == it.args[0].args[0].id
+              and isinstance(e.slice, ast.Slice) and e.slice.step is None
+              and isinstance(e.slice.lower, ast.Name) and e.slice.lower.id == i
+              and isinstance(e.slice.upper, ast.BinOp) and isinstance(e.slice.upper.op, ast.Add)
+              and isinstance(e.slice.upper.left, ast.Name) and e.slice.upper.left.id == i
+              and isinstance(e.slice.upper.right, ast.Constant) and e.slice.upper.right.value == 1
+              and "range" not in st.env and "len" not in st.env and i != e.value.id)
+        if not ok:
+            return None
+        x = st.env.get(e.value.id)
+        if not (isinstance(x, Sym) and x.tag == "bytes"):
+            return None
+        return st.alloc(ListV(tag="byte1", t=x.t))
 
     def merged_atts_comprehension(self, n, st):
         """{k: v for run in RUNS for (k, v) in run.atts.items()}: the attribute dicts of the runs merged in order (a later run's
